@@ -600,7 +600,7 @@ namespace avel {
 
     [[nodiscard]]
     AVEL_FINL vec1x64f fdim(vec1x64f a, vec1x64f b) {
-        return avel::max(a - b, vec1x64f{0.0});
+        return vec1x64f{avel::fdim(decay(a), decay(b))};
     }
 
     [[nodiscard]]
